@@ -9,6 +9,7 @@ Import ListNotations.
 From TI Require Import model.Settings proofs.SettingsProofs.
 From TI Require Import model.SettingsRender proofs.SettingsRenderProofs.
 From TI Require Import model.SettingsVal proofs.SettingsValProofs.
+From TI Require Import model.SettingsMro proofs.SettingsMroProofs proofs.C3Proofs.
 
 (** effective value of a class = own value if set, else nearest ancestor's, else default —
     after every history of set / unset / invalid-set operations on any class or instance *)
@@ -282,3 +283,124 @@ Theorem C20_excludes_truthiness_dispatch :
     valid_for (SRm n) lv v = false /\ front_rm_truthy n v = FUnset.
 Proof. exact truthy_dispatch_refuted. Qed.
 Print Assumptions C20_excludes_truthiness_dispatch.
+
+(** ** Round 6: class hierarchies with MULTIPLE INHERITANCE, rooted at the library's own base
+    classes ([model/SettingsMro.v]).
+
+    "the nearest class in its ancestry that has one": the ancestry of a Python class is its
+    method resolution order (the C3 linearisation of the inheritance graph).  A hierarchy
+    [H] gives every class its MRO ([h_mro]), says on which classes the setting exists
+    ([h_has]: forced support on every image class, [BaseImage] included; the class-wide
+    render method below the style class; the iterm2 settings below [ITerm2Image]) and which
+    class is the style class ([h_root]).  [wf_mro] / [wf_hier] are discharged for every
+    hierarchy the C3 linearisation accepts by [C20_c3_hierarchies_well_formed]. *)
+
+(** effective value of a class = own value if set, else that of the FIRST CLASS OF ITS MRO
+    that has one, else the default — after every history *)
+Theorem C20_mro_class_lookup_spec :
+  forall k H, wf_mro H -> wf_hier k H -> forall ops c,
+    m_cls_eff k H (m_run k H ops) c = m_spec_cls k H ops c.
+Proof. exact m_cls_lookup_spec. Qed.
+Print Assumptions C20_mro_class_lookup_spec.
+
+Theorem C20_mro_instance_lookup_spec :
+  forall k H, wf_mro H -> wf_hier k H -> forall icls ops i,
+    m_inst_eff k H icls (m_run k H ops) i = m_spec_inst k H icls ops i.
+Proof. exact m_inst_lookup_spec. Qed.
+Print Assumptions C20_mro_instance_lookup_spec.
+
+(** unsetting a class makes it follow the next one again: the REST of its MRO (not its
+    first listed base) *)
+Theorem C20_mro_class_unset_follows_next :
+  forall k H, wf_mro H -> wf_hier k H -> forall ops c r,
+    k_cls_unset k = true -> h_has H c = true -> h_mro H c = c :: r ->
+    (c <> h_root H \/ k_pinned k = false) ->
+    let s' := fst (m_step k H (m_run k H ops) (ClsUnset c)) in
+    m_cls_eff k H s' c = m_eff_over k s' r.
+Proof. exact m_cls_unset_follows_next. Qed.
+Print Assumptions C20_mro_class_unset_follows_next.
+
+Theorem C20_mro_root_unset_gives_default :
+  forall k H, wf_mro H -> wf_hier k H -> forall ops,
+    k_cls_unset k = true -> k_pinned k = true -> h_has H (h_root H) = true ->
+    m_cls_eff k H (fst (m_step k H (m_run k H ops) (ClsUnset (h_root H)))) (h_root H) = k_default k.
+Proof. exact m_root_unset_gives_default. Qed.
+Print Assumptions C20_mro_root_unset_gives_default.
+
+(** setting never changes what a class sees that does not have the target in its MRO
+    (ancestors, siblings, mix-ins, the library's base classes), from any state *)
+Theorem C20_mro_class_op_is_local :
+  forall k H s o d,
+    (match o with ClsSet c _ | ClsUnset c => ~ In c (h_mro H d) | _ => True end) ->
+    m_cls_eff k H (fst (m_step k H s o)) d = m_cls_eff k H s d.
+Proof. exact m_class_op_is_local. Qed.
+Print Assumptions C20_mro_class_op_is_local.
+
+Theorem C20_mro_instance_op_is_local :
+  forall k H icls s o j,
+    (match o with InstSet i _ | InstUnset i => j <> i | _ => False end) ->
+    m_inst_eff k H icls (fst (m_step k H s o)) j = m_inst_eff k H icls s j.
+Proof. exact m_inst_op_is_local. Qed.
+Print Assumptions C20_mro_instance_op_is_local.
+
+Theorem C20_mro_rejected_no_change :
+  forall k H s o, snd (m_step k H s o) = Rejected -> fst (m_step k H s o) = s.
+Proof. exact m_rejected_no_change. Qed.
+Print Assumptions C20_mro_rejected_no_change.
+
+(** the C3 linearisation: the MRO of a class starts with the class, lists no class twice,
+    and extends the MRO of every class in it (so every class precedes all its ancestors,
+    in the order its bases were listed) *)
+Theorem C20_c3_sound :
+  forall hs c l, nth c (c3_all hs) None = Some l ->
+    (exists r, l = c :: r) /\ NoDup l /\
+    (forall x, In x l -> exists lx, nth x (c3_all hs) None = Some lx /\ subseq lx l).
+Proof. exact c3_sound. Qed.
+Print Assumptions C20_c3_sound.
+
+(** every hierarchy the linearisation accepts — whatever the bases lists: mix-ins first or
+    last, diamonds, any depth — satisfies the hypotheses above, for every setting *)
+Theorem C20_c3_hierarchies_well_formed :
+  forall hs img root st, wf_hier_st st (hier_c3 (c3_all hs) img root st).
+Proof. exact hier_c3_wf. Qed.
+Print Assumptions C20_c3_hierarchies_well_formed.
+
+(** value-level histories over such hierarchies (operations on the library's base classes
+    included): outcomes and readings after every operation, model = specification *)
+Theorem C20_mro_value_trace_spec :
+  forall hs img root st icls nc ni ops,
+    let H := hier_c3 (c3_all hs) img root st in
+    m_vtrace st H icls nc ni (m_uinit st H) ops = m_vspec_trace st H icls nc ni ops.
+Proof. exact c3_vtrace_spec. Qed.
+Print Assumptions C20_mro_value_trace_spec.
+
+Theorem C20_mro_invalid_rejected :
+  forall st H u lv t v e,
+    m_doc_meaning st H lv t v = MInvalid e -> m_vstep st H u (VSet lv t v) = (u, VRej e).
+Proof. exact m_invalid_rejected. Qed.
+Print Assumptions C20_mro_invalid_rejected.
+
+(** the single-inheritance forest of [model/Settings.v] is the special case: its C3
+    linearisation is the chain of parents, and over it the two models coincide *)
+Theorem C20_forest_mro_is_parent_chain :
+  forall par, wf_par par -> forall n,
+    c3_all (forest_bases par n) = map (fun c => Some (chain par c c)) (seq 0 n).
+Proof. exact c3_forest. Qed.
+Print Assumptions C20_forest_mro_is_parent_chain.
+
+Theorem C20_forest_is_special_case :
+  forall k par,
+    (forall s o, m_step k (hier_of_par par) s o = step k par s o) /\
+    (forall ops, m_run k (hier_of_par par) ops = run k par ops) /\
+    (forall s c, m_cls_eff k (hier_of_par par) s c = cls_eff k par s c).
+Proof. intros k par. exact (conj (forest_step k par) (conj (forest_run k par) (forest_cls_eff k par))). Qed.
+Print Assumptions C20_forest_is_special_case.
+
+(** a design the property excludes: deciding "is there a parent style class?" from the
+    first listed base — on a mix-in-first class the unset writes the default *)
+Theorem C20_excludes_first_base_unset :
+  exists k H fb ops c,
+    m_cls_eff k H (m_unset_firstbase k H fb (m_run k H ops) c) c
+    <> m_spec_cls k H (ops ++ [ClsUnset c]) c.
+Proof. exact first_base_unset_refuted. Qed.
+Print Assumptions C20_excludes_first_base_unset.
